@@ -179,15 +179,57 @@ fn classify(input: &Input, tgt: Tgt, rendered: &str) -> String {
 
 fn show(o: &CompileOutcome) -> String {
     match o {
-        CompileOutcome::Err(e) => {
-            let t = one_line(e);
-            if t.chars().count() > 900 {
-                format!("{}...", t.chars().take(900).collect::<String>())
-            } else {
-                t
-            }
-        }
+        CompileOutcome::Err(e) => clip(e, 900),
         other => other.digest(),
+    }
+}
+
+fn clip(t: &str, n: usize) -> String {
+    if t.chars().count() > n {
+        format!("{}...", t.chars().take(n).collect::<String>())
+    } else {
+        t.to_string()
+    }
+}
+
+/// inverse of util::one_line
+fn unescape(s: &str) -> String {
+    let mut out = String::new();
+    let mut it = s.chars();
+    while let Some(c) = it.next() {
+        if c == '\\' {
+            match it.next() {
+                Some('n') => out.push('\n'),
+                Some('t') => out.push('\t'),
+                Some('r') => out.push('\r'),
+                Some('\\') => out.push('\\'),
+                Some(o) => {
+                    out.push('\\');
+                    out.push(o);
+                }
+                None => out.push('\\'),
+            }
+        } else {
+            out.push(c);
+        }
+    }
+    out
+}
+
+/// the text of a generated rejected program, for the failure report
+fn program_text(id: &str) -> String {
+    if !is_diag_stream(id) {
+        return String::new();
+    }
+    match source_of(id) {
+        Some(input) => {
+            let mut t = String::from("; program:");
+            for (n, f) in &input.files {
+                t.push_str(&format!(" [{}] <<{}>>", n, clip(f, 1500)));
+            }
+            t
+        }
+        None => String::new(),
     }
 }
 
@@ -209,7 +251,7 @@ fn child(lines: &[String]) {
     for line in lines {
         if let Some((t, m, id)) = parse_req(line) {
             match compile_id(&id, t, &m) {
-                Some(o) => println!("DIGEST\t{}\t{}", o.digest(), show(&o)),
+                Some(o) => println!("DIGEST\t{}\t{}", o.digest(), one_line(&show(&o))),
                 None => println!("DIGEST\tbad\tbad"),
             }
         }
@@ -249,10 +291,11 @@ fn run_requests(lines: &[String], out: &mut Out, hist: &mut Hist) {
             if d != d0 && fail.is_none() {
                 fail = Some(match (&a, &b) {
                     (CompileOutcome::Err(_), _) | (_, CompileOutcome::Err(_)) => format!(
-                        "run {} in the same process gives another diagnostic: <<{}>> vs first run <<{}>>",
+                        "run {} in the same process gives another diagnostic: <<{}>> vs first run <<{}>>{}",
                         k,
                         show(&b),
-                        show(&a)
+                        show(&a),
+                        program_text(&id)
                     ),
                     _ => format!("run {} in the same process differs: {} vs {}", k, d, d0),
                 });
@@ -318,7 +361,14 @@ fn run_requests(lines: &[String], out: &mut Out, hist: &mut Hist) {
             let (d, shown) = digests.get(i).copied().unwrap_or(("missing", ""));
             if d != d0 && fails[i].is_none() {
                 fails[i] = Some(if d.starts_with("err") || d0.starts_with("err") {
-                    format!("fresh process {} gives another diagnostic: <<{}>> vs this process <<{}>>", proc_no, shown, shows[i])
+                    let id = parse_req(&lines[i]).map(|r| r.2).unwrap_or_default();
+                    format!(
+                        "fresh process {} gives another diagnostic: <<{}>> vs this process <<{}>>{}",
+                        proc_no,
+                        unescape(shown),
+                        shows[i],
+                        program_text(&id)
+                    )
                 } else {
                     format!("fresh process {} differs: {} vs {}", proc_no, d, d0)
                 });
